@@ -331,6 +331,37 @@ def exhaustive(nkeys, nops):
         yield 'I|' + ' '.join(seq)
 
 
+def state_closure(run_model, feed, nkeys, depth, stop):
+    """breadth-first closure over tree STATES: from one representative history of every distinct tree (shape, colours,
+    keys) reachable within `depth` operations, every operation set k / rem k is applied once.  The model is a function
+    of the state, so this visits every transition of every history of that length over these keys; the implementation
+    is run on the representative history + the operation.  Returns (#states, #transitions)."""
+    alpha = ['s%d,%d' % (k, k + 10) for k in range(nkeys)] + ['r%d' % k for k in range(nkeys)]
+    seen = {'.': []}
+    frontier = ['.']
+    trans = 0
+    for dep in range(depth):
+        cases, src = [], []
+        for st in frontier:
+            for a in alpha:
+                cases.append('I|' + ' '.join(seen[st] + [a]))
+                src.append(seen[st] + [a])
+        if not cases:
+            break
+        trans += len(cases)
+        feed(cases)
+        if stop():
+            break
+        nxt = []
+        for toks, line in zip(src, run_model(cases)):
+            last = line.split(' | ')[-1].split(';')
+            if len(last) == 5 and last[2] not in seen:
+                seen[last[2]] = toks
+                nxt.append(last[2])
+        frontier = nxt
+    return len(seen), trans
+
+
 CORPUS = [
     'I|s1,1 s2,2 s3,3 s4,4 s5,5 s6,6 s7,7 s8,8 r4 r2 r6 r1 r8 g3 g4 m5 r5 r3 r7 s9,9',
     'I|s5,1 s3,2 s8,3 s1,4 s4,5 s7,6 s9,7 r5 r4 r8 g5 m7 c r7 r1 r3 r9 r9',
@@ -347,8 +378,8 @@ def run(ctx):
         '(ascending, descending, alternating low/high, random over universes of 2..40 keys, drain-and-refill, '
         'duplicates over 2..6 keys, magnitudes up to +-2^63, windows at the int64 limits) and String keys (hex-coded '
         'byte strings incl. prefixes, empty string, bytes >= 0x80); plus removals AIMED at the root / a node with '
-        'two children / a black leaf of the shape reached so far (read off the model); thorough adds every '
-        'sequence of 7 set/rem operations over 5 keys. A case is non-trivial when an insertion changed an '
+        'two children / a black leaf of the shape reached so far (read off the model); every run adds the closure over tree states for 5 keys (each set/rem '
+        'from every distinct reachable tree), thorough also every sequence of 6 set/rem operations over 4 keys. A case is non-trivial when an insertion changed an '
         'existing parent-child edge (a rotation happened: shape differs from plain BST insertion), or a node with '
         'two children was removed (predecessor copy), or a black leaf with a parent was removed (double-black '
         'repair); distinct = distinct implementation transcripts among the non-trivial ones')
@@ -385,7 +416,7 @@ def run(ctx):
         for i in range(0, n, 2000):
             yield [gen_case(ctx.rng, maxops if j % 4 else 14) for j in range(i, min(n, i + 2000))]
         if not quick:
-            ex = exhaustive(5, 7)
+            ex = exhaustive(4, 6)
             cnt = 0
             while True:
                 chunk = list(itertools.islice(ex, 20000))
@@ -393,12 +424,19 @@ def run(ctx):
                     break
                 cnt += len(chunk)
                 yield chunk
-            ctx.cov['exhaustive'] = {'what': 'all sequences of 7 operations from {set k, rem k | k in 0..4}, checked after '
+            ctx.cov['exhaustive'] = {'what': 'all sequences of 6 operations from {set k, rem k | k in 0..3}, checked after '
                                              'every step (bounded search, not the claim)', 'cases': cnt}
     for batch in stream():
         feed(batch)
         if d.oracle_fail:
             break            # a concrete failing input is in hand: report it (a hanging library makes every case slow)
+    if not d.oracle_fail:
+        nk = 5 if quick else 8
+        ns, nt = state_closure(run_model, feed, nk, 8 if quick else 40, lambda: bool(d.oracle_fail))
+        ctx.cov['state_closure'] = {'what': 'every operation set k / rem k (k in 0..%d) applied to every distinct tree state '
+                                            'reachable within %d operations from the empty tree (one representative '
+                                            'history per state; bounded search, not the claim)' % (nk - 1, 8 if quick else 40),
+                                    'states': ns, 'transitions': nt}
     ctx.cov['case_kinds'] = dict(HIST)
 
     def extra(dd):
